@@ -98,7 +98,7 @@ def o16_4(tier):
     return [("chain5,other", mk(subs[::2], "other")), ("chain5,zero", mk(subs[1::2], "zero"))]
 
 
-@obligation("O16.1", ["C16", "C02"], [FM + "get_angle_limited_edges"],
+@obligation("O16.1", ["C16"], [FM + "get_angle_limited_edges"],
             "a junction is flagged iff some pair of interface directions there opens by at least the limit; an internal interface is dropped iff both its ends are flagged; order of the others kept",
             tier="Pn")
 def o16_1(tier):
